@@ -309,9 +309,12 @@ func (val Value) Equals(other Value) Value {
 
 		// Two sets are equal if all of their values are known and all values
 		// in one are also in the other.
+		ety := ty.ElementType()
 		for it := s1.Iterator(); it.Next(); {
 			rv := it.Value()
-			if _, unknown := rv.(*unknownType); unknown { // "*unknownType" is the internal representation of unknown-ness
+			if !(Value{ty: ety, v: rv}).IsWhollyKnown() {
+				// An element that is unknown, or that contains unknown values,
+				// might turn out to be equal to an element of the other set.
 				return unknownResult()
 			}
 			if !s2.Has(rv) {
@@ -320,7 +323,7 @@ func (val Value) Equals(other Value) Value {
 		}
 		for it := s2.Iterator(); it.Next(); {
 			rv := it.Value()
-			if _, unknown := rv.(*unknownType); unknown { // "*unknownType" is the internal representation of unknown-ness
+			if !(Value{ty: ety, v: rv}).IsWhollyKnown() {
 				return unknownResult()
 			}
 			if !s1.Has(rv) {
